@@ -66,15 +66,15 @@ IOWAIT == 5
 IsGuest(f) == f >= 9
 NonGuest(n) == 1..Min(n, 8)
 
-SumTo(v, n) ==      \* v[1] + ... + v[n], n <= 10
+SumTo(v, n) ==      \* v[1] + ... + v[n], n <= 12 (10 fields; up to 12 CPUs)
   LET G(k) == IF k <= n THEN v[k] ELSE 0
-  IN G(1) + G(2) + G(3) + G(4) + G(5) + G(6) + G(7) + G(8) + G(9) + G(10)
+  IN G(1) + G(2) + G(3) + G(4) + G(5) + G(6) + G(7) + G(8) + G(9) + G(10) + G(11) + G(12)
 
 \* <<F(1), ..., F(n)>> built eagerly (TLC keeps [i \in 1..n |-> e] lazy, and a
 \* lazy value inside the VIEW-hidden `ev` cannot be written to the state queue)
 MkSeq(n, F(_)) ==
   LET G(k) == IF k <= n THEN F(k) ELSE 0
-  IN SubSeq(<<G(1), G(2), G(3), G(4), G(5), G(6), G(7), G(8), G(9), G(10)>>, 1, n)   \* n <= 10
+  IN SubSeq(<<G(1), G(2), G(3), G(4), G(5), G(6), G(7), G(8), G(9), G(10), G(11), G(12)>>, 1, n)   \* n <= 12
 
 Total(m) == MkSeq(Len(m[1]), LAMBDA f : SumTo([c \in 1..Len(m) |-> m[c][f]], Len(m)))
 Samp(form, m) == IF form = "per" THEN m ELSE <<Total(m)>>
